@@ -87,6 +87,12 @@ _RE_INDEX = re.compile(r'^CREATE\s+(?P<uq>UNIQUE\s+)?INDEX\s+(?:(?P<name>%s)\s+)
 _RE_COMMENT = re.compile(r"^COMMENT\s+ON\s+(?P<what>TABLE|COLUMN)\s+(?P<target>%s(?:\s*\.\s*%s)*)\s+IS\s+'" % (_IDENT, _IDENT), re.I)
 
 
+def _flat(s: str) -> str:
+    """runs of blanks outside double-quoted identifiers -> one blank"""
+    parts = re.split(r'("[^"\n]*")', s)
+    return ''.join(p if p.startswith('"') else re.sub(r'[ \t]+', ' ', p) for p in parts)
+
+
 def _fk(m, comment) -> Dict[str, Any]:
     return {'cname': (m.group('cname') or '""')[1:-1], 'cols': _collist(m.group('cols')), 'ref': _parts(m.group('ref')),
             'refcols': _collist(m.group('refcols')), 'onupdate': (m.group('upd') or '').upper(),
@@ -205,7 +211,7 @@ def _table(q: str, body: List[str], comment: str) -> Dict[str, Any]:
     if cur:
         entries.append(('\n'.join(cur).strip(), '\n'.join(pend)))
     for e, ecomment in entries:
-        flat = re.sub(r'[ \t]+', ' ', e)
+        flat = _flat(e)
         m = _RE_PK.match(e)
         if m:
             pks.append({'subj': _subjects(m.group('keys')), 'comment': ecomment})
